@@ -9,6 +9,9 @@ for sid in sorted(os.listdir(os.path.join(ROOT, "seeded"))):
     if not os.path.isdir(d) or (only and sid not in only):
         continue
     meta = json.load(open(os.path.join(d, "meta.json")))
+    if meta.get("status") == "obsolete":
+        print(f"{sid:8s} obsolete             {meta.get('verdict', '')[:150]}")
+        continue
     props = list(meta.get("checks_run", {}).keys()) or [meta["breaks_property"]]
     a = subprocess.run(["git", "-C", "/repo", "apply", os.path.join(d, "patch.diff")], capture_output=True, text=True)
     if a.returncode != 0:
